@@ -1,7 +1,7 @@
 (* C13: Two-stage (partial, then full) validation equals one-shot validation.
    Model: Gpbft/Validator.v (PartiallyValidateMessage, FullyValidateMessage, pmsg strip / complete / infer). *)
 From Coq Require Import ZArith List Bool.
-From F3 Require Import GoInt QuorumGen ProgressGen Validator ValidatorProofs.
+From F3 Require Import GoInt QuorumGen ProgressGen Validator ValidatorProofs ValidatorTablesGen ValidatorTables.
 Import ListNotations.
 Open Scope Z_scope.
 
@@ -51,3 +51,13 @@ Example C13_nonvacuous :
   fst (two_stage 1 (Some ex_cmt) cache_empty (mkProg 10 2 3) 2 (fst (strip ex_c)) 6 (mkCh 5 true)) = VInvalid /\
   fst (two_stage 1 (Some ex_cmt) cache_empty (mkProg 10 2 3) 2 (fst (strip ex_c)) (snd (strip ex_c)) (mkCh 6 true)) = VInvalid.
 Proof. vm_compute. repeat split. Qed.
+
+(* both stages consult the tables of gpbft/validator.go as regenerated from the source on every run: the full table
+   (validateJustification, used by the partial and the one-shot path) and the abbreviated one of FullyValidateMessage *)
+Theorem C13_full_table_is_the_code : forall mp mr jp key,
+  expectation mp mr jp key = expectation_gen mp mr jp key.
+Proof. exact expectation_is_the_generated_table. Qed.
+Print Assumptions C13_full_table_is_the_code.
+Theorem C13_abbreviated_table_is_the_code : forall p lb m k, fully_validate p lb m k = fully_validate_gen p lb m k.
+Proof. exact fully_validate_is_the_generated_table. Qed.
+Print Assumptions C13_abbreviated_table_is_the_code.
